@@ -1,9 +1,11 @@
 (* C19_Corr.v — correspondence vocabulary for C19.  A case is what the harness fed to a
    generated hook script (arguments, the binding contexts reduced to the fields the
-   framework reads, the handler functions the script defines with their scripted exit
-   status per context index) together with what the run showed (trace file, exit
-   status, whether the configuration text was on stdout).  Evaluated by vm_compute in
-   the generated cases files.
+   framework reads, the handler functions the script defines - each with its body of
+   commands (one for all context indices plus arms for particular indices) and its final
+   explicit `return` status per context index, or none: the function runs to its end)
+   together with what the run showed (trace file: invocations and, per invocation, the
+   marks of the commands that started; exit status; whether the configuration text was on
+   stdout).  Evaluated by vm_compute in the generated cases files.
 
    [exotic] marks the separate stream of binding names the model does not speak about
    (blanks, glob characters, quotes, ...): those
@@ -11,41 +13,71 @@
    predicate is reported through trigger_XMODEL / trigger_XSPEC for triage. *)
 From Verif Require Import Common C19_Model C19_Spec.
 
+(* one handler function of the generated script:
+     function NAME() { <trace line>; case $INDEX in i[)] <arm i> [return s_i];; ... default[)] <body> [return s];; esac; }
+   (without the `case` when there is no arm); every command is preceded by its mark *)
+Record hdef := mkH {
+  h_name    : name;
+  h_sts     : list N;            (* status of the final explicit `return` per context index (missing = 0) *)
+  h_falloff : bool;              (* true: no final `return`, the function runs to its end *)
+  h_body    : body;              (* the commands for every context index without an arm *)
+  h_arms    : list (N * body)    (* the commands for particular context indices *)
+}.
+
 Record case := mkCase {
   k_exotic  : bool;
   k_args    : list bytes;
   k_ctxs    : list ctx;
-  k_defined : list (name * list N);     (* handler name, exit status per context index (missing = 0) *)
-  k_obs     : obs
+  k_defined : list hdef;
+  k_obs     : obsB
 }.
 
-Fixpoint lookup (n : name) (l : list (name * list N)) : option (list N) :=
+Fixpoint lookup_h (n : name) (l : list hdef) : option hdef :=
   match l with
   | [] => None
-  | (m, sts) :: r => if bytes_eqb n m then Some sts else lookup n r
+  | h :: r => if bytes_eqb n (h_name h) then Some h else lookup_h n r
   end.
 
-Definition results_of (c : case) : name -> N -> N :=
-  fun n i => match lookup n (k_defined c) with
-             | Some sts => nth (N.to_nat i) sts 0%N
-             | None => 0%N
+Fixpoint lookup_arm (i : N) (l : list (N * body)) : option body :=
+  match l with
+  | [] => None
+  | (j, b) :: r => if N.eqb i j then Some b else lookup_arm i r
+  end.
+
+(* what the function executes when context number i is current *)
+Definition body_at (h : hdef) (i : N) : body :=
+  (match lookup_arm i (h_arms h) with Some a => a | None => h_body h end)
+  ++ (if h_falloff h then [] else [Return (nth (N.to_nat i) (h_sts h) 0%N)]).
+
+Definition bodies_of (c : case) : name -> N -> body :=
+  fun n i => match lookup_h n (k_defined c) with
+             | Some h => body_at h i
+             | None => []
              end.
 
-Definition defined_of (c : case) : list name := map fst (k_defined c).
+Definition defined_of (c : case) : list name := map h_name (k_defined c).
 
-Definition input_of (c : case) : input :=
-  mkInput (k_args c) (defined_of c) (results_of c) (k_ctxs c).
+Definition inputB_of (c : case) : inputB :=
+  mkInputB (k_args c) (defined_of c) (bodies_of c) (k_ctxs c).
 
-Definition model_obs (c : case) : obs :=
-  run (k_args c) (defined_of c) (results_of c) (k_ctxs c).
+Definition input_of (c : case) : input := to_input (inputB_of c).
+
+Definition model_obs (c : case) : obsB :=
+  runB (k_args c) (defined_of c) (bodies_of c) (k_ctxs c).
 
 Definition obs_eqb (a b : obs) : bool :=
   list_eqb entry_eqb (o_trace a) (o_trace b)
   && N.eqb (o_status a) (o_status b)
   && Bool.eqb (o_printed a) (o_printed b).
 
-Definition agrees (c : case) : bool := obs_eqb (model_obs c) (k_obs c).
-Definition spec_ok (c : case) : bool := negb (in_domain (input_of c)) || P (input_of c) (k_obs c).
+Definition step_eqb (a b : step) : bool := N.eqb (fst a) (fst b) && N.eqb (snd a) (snd b).
+
+Definition obsB_eqb (a b : obsB) : bool :=
+  obs_eqb (ob_obs a) (ob_obs b) && list_eqb (list_eqb step_eqb) (ob_steps a) (ob_steps b).
+
+Definition agrees (c : case) : bool := obsB_eqb (model_obs c) (k_obs c).
+Definition spec_ok (c : case) : bool :=
+  negb (in_domain (input_of c)) || PB (inputB_of c) (ob_obs (k_obs c)).
 
 Definition mismatches (cs : list case) : list N :=
   indices_where (fun c => negb (k_exotic c) && negb (agrees c)) cs.
